@@ -533,6 +533,28 @@ func stackHead(stk string) string {
 	return strings.Join(out, "\n")
 }
 
+// nilResultExplains: may a "there is no instance" error of op be put down to a
+// constructor that was made to return nil? Yes if that happened inside op. Also
+// if it happened earlier to a singleton (built once, at Build) or to a
+// constructor with several results (it has run, its nil result stays nil for
+// the owner's lifetime). Not for a single-result scoped / transient constructor:
+// its failed construction leaves nothing behind, a later attempt starts afresh.
+func (a *Analysis) nilResultExplains(op *OpResult) bool {
+	if a.faultInOp[op.GID] {
+		return true
+	}
+	for _, f := range a.h.faults {
+		if f.Kind != FCtorNil || f.Fired == 0 || f.Reg < 0 {
+			continue
+		}
+		r := a.m.regs[f.Reg]
+		if r.Life == LSingleton || len(r.Outs) > 1 {
+			return true
+		}
+	}
+	return false
+}
+
 func (a *Analysis) nilFaultFired(reg int) bool {
 	for _, f := range a.h.faults {
 		if f.Kind == FCtorNil && f.Fired > 0 && (reg < 0 || f.Reg == reg) {
@@ -1034,7 +1056,7 @@ func (a *Analysis) ruleOpValidity() {
 				if a.buildOK {
 					a.add("C08", "C08.found", "missing-dep", "op%d %s failed with not-found after a successful Build: %v", op.GID, op.Op, op.Err)
 				}
-			} else if a.nilFaultFired(-1) && (hasClass(op.Classes, ESingletonNotInit) || hasClass(op.Classes, ENilInstance)) {
+			} else if a.nilResultExplains(op) && (hasClass(op.Classes, ESingletonNotInit) || hasClass(op.Classes, ENilInstance)) {
 				// a constructor was made to return nil for this output: there is no instance to hand out.
 				// The statement does not prescribe the error class of that situation.
 				just = true
@@ -1044,7 +1066,7 @@ func (a *Analysis) ruleOpValidity() {
 
 			}
 		}
-		if !just && a.nilFaultFired(-1) && (hasClass(op.Classes, ESingletonNotInit) || hasClass(op.Classes, ENilInstance)) {
+		if !just && a.nilResultExplains(op) && (hasClass(op.Classes, ESingletonNotInit) || hasClass(op.Classes, ENilInstance)) {
 			just = true
 		}
 		if hasClass(op.Classes, EScopeDisposed) || hasClass(op.Classes, EProviderDisposed) {
